@@ -257,7 +257,7 @@ MUTANTS = {
         "props": ["C10"], "what": "InterpolatedThresholder.predict compares the draw with 1-p",
         "edits": [(IT, "return (positive_probs > random_state.rand(len(positive_probs))) * 1", "return (1 - positive_probs < random_state.rand(len(positive_probs))) * 1")]},
     "p_ignore_mixing_swapped": {
-        "props": ["C10", "C04", "C05"], "what": "p_ignore and 1-p_ignore swapped in the pmf",
+        "props": ["C04", "C05"], "what": "p_ignore and 1-p_ignore swapped in the pmf (still a valid pmf: C10 cannot see it)",
         "edits": [(IT, "                    interpolation.p_ignore * interpolation.prediction_constant\n                    + (1 - interpolation.p_ignore) * interpolated_predictions",
                    "                    (1 - interpolation.p_ignore) * interpolation.prediction_constant\n                    + interpolation.p_ignore * interpolated_predictions")]},
     "thresholder_rule_by_position": {
